@@ -633,7 +633,11 @@ func (a *Act) enterLoop(li *loopInfo) blockCtx {
 		if nm == "" {
 			nm = phi.Name()
 		}
-		a.set(phi, Val{T: g.fresh("phi_"+nm, s), S: s, G: phi.Type()})
+		pv := Val{T: g.fresh("phi_"+nm, s), S: s, G: phi.Type()}
+		if f := g.typeFact(pv); f != "true" {
+			g.fact(f)
+		}
+		a.set(phi, pv)
 	}
 	// use hints + assume invariant
 	env := a.env(st, nil, h)
